@@ -23,13 +23,11 @@ MANIFEST = dict(
          "abstract matcher in the theorems (literal-name rules in the generated cases). The path re-basing for "
          "directories above the search root is modelled byte for byte and tested, not proved correct: it is wrong for "
          "root '.' with dot-names and for anchored patterns below depth 1 (known finding ParentRuleRebase). The "
-         "`compiled` cache of add_parents is not modelled. With --no-require-git the exclude file of a linked worktree "
-         "(gitfile root) is not found (known finding GitlinkExcludeNoRequire, excluded from decide_eq_world by a class "
-         "predicate; decide_eq_world_as_read is the full-strength form).",
+         "`compiled` cache of add_parents is not modelled. GitlinkExcludeNoRequire (exclude file of a linked worktree not "
+         "read under --no-require-git) is repaired by a fix: commit; its witness runs first as a regression case.",
     technique="Coq proof over executable model + extracted-model/rg correspondence + independent rule oracle",
     design="§7 C05")
 KNOWN_REBASE = "ParentRuleRebase"
-KNOWN_GITLINK_EXCLUDE = "GitlinkExcludeNoRequire"
 
 FILE_LIKE = ("f", "fifo", "rlf", "chr")        # command-line paths that are not directories
 SRC = ["rg", "ig", "gi", "ex"]                      # per-directory sources, in precedence order
@@ -726,24 +724,6 @@ def in_rebase_class(c, diff):
     return True
 
 
-def in_gitlink_exclude_class(c):
-    """known finding GitlinkExcludeNoRequire: --no-require-git given, exclude rules on, and some directory of the case is
-       a gitlink root (`.git` a file) whose repository has info/exclude rules: the code takes dir/.git for the git
-       directory and finds no exclude file (theorem decide_eq_world excludes exactly --no-require-git + gitfile root)"""
-    fl = o_flags(c)
-    if not fl["norequire"] or fl["vcs"] or fl["exclude"]:
-        return False
-
-    def has(n):
-        n = eff(n)
-        if n["kind"] != "d" or "rules" not in n:
-            return False
-        if git_kind_of(n) == "file" and n["rules"]["ex"]:
-            return True
-        return any(has(k) for k in n["kids"])
-    return any(has(d) for d in c["above"]) or any(has(r["target"] if r["kind"] == "rld" else r) for r in c["roots"])
-
-
 def features(c):
     f = []
     fl = c["flags"]
@@ -844,8 +824,6 @@ def check_cases(ctx, cases, base0, stats):
             stats["oracle!=rg"] = stats.get("oracle!=rg", 0) + 1
             if in_rebase_class(c, diff) and model == rg:
                 ctx.known(KNOWN_REBASE, "args=%r cwd=%s differing=%r" % (rg_args(c, base), c["cwd"], diff))
-            elif in_gitlink_exclude_class(c) and model == rg:
-                ctx.known(KNOWN_GITLINK_EXCLUDE, "args=%r cwd=%s differing=%r" % (rg_args(c, base), c["cwd"], diff))
             else:
                 g = genv_of(c)
                 ctx.violation("rg --files differs from the documented precedence of filters on: %r; env: ~/.gitconfig=%s, %s/git/config=%s, "
@@ -1016,7 +994,9 @@ def git_worktree_check(ctx, base0, stats):
             inner = (lambda x: x.startswith("sub/")) if root == main else (lambda x: False)
             want = sorted(x for x in r.stdout.decode().split("\n")
                           if x and not inner(x) and not any(p.startswith(".") for p in x.split("/")))
-            for extra in ([], ["-j3"], ["--no-ignore-parent"] if rel == "." else ["-j1"]):
+            # in the stand-alone worktree (nothing above it carries rules) --no-require-git must change nothing: the
+            # repository's info/exclude is still read through the gitfile (repaired defect GitlinkExcludeNoRequire)
+            for extra in [[], ["-j3"], ["--no-ignore-parent"] if rel == "." else ["-j1"]] + ([["--no-require-git"]] if root == wt else []):
                 p = subprocess.run([vlib.RG, "--no-config", "--files", "--no-messages"] + extra, cwd=cwd, env=env,
                                    stdin=subprocess.DEVNULL, stdout=subprocess.PIPE, stderr=subprocess.PIPE, timeout=300)
                 got = sorted(x for x in p.stdout.decode("utf-8", "replace").split("\n") if x and not inner(x))
@@ -1084,7 +1064,9 @@ def corpus_cases():
         c["global"] = [R("b")]
         res.append(c)
     # repository roots marked by a `.git` FILE (linked worktree, submodule), above and inside the search root, the search
-    # root a strict sub-directory; with and without --no-require-git, one and three threads
+    # root a strict sub-directory; with and without --no-require-git, one and three threads.  The first scenario with
+    # --no-require-git is the witness of the repaired defect GitlinkExcludeNoRequire (exclude rule `excl` of a linked
+    # worktree): a fixed regression case
     for nr in (False, True):
         for th in (1, 3):
             for lay, cwd, sp in (("in", "up1/up0/r", [None]), ("up0", "up1/up0", ["r"])):
